@@ -2,7 +2,8 @@
 C17 helper lemmas, third layer: what runs is current.  `Wanted c s o …` is the frame the API state
 of producer `o` says it transmits; `Current` says every handle that drives a live bus task carries
 that frame.  Preserved by every API call except an `NmtSlave.send_command` that raises after it has
-changed the NMT state (`Clean` excludes exactly those).
+changed the NMT state, and an assignment to the `period` attribute of a producer whose task is
+running (`Clean` excludes exactly those).
 -/
 import CanopenProofs.Lemmas.PeriodicOps
 
@@ -246,6 +247,48 @@ theorem cur_pdoStart (hi : Inv c s) (h : Current c s) (n k : Nat) (p : Option Na
     intro v i hv hi'
     exact ⟨hi', rfl, rfl, hv⟩
 
+/-- the handle of `o`, if any, drives no live task (for all producers but SYNC: there is no handle) -/
+def Idle (s : State) (o : Owner) : Prop := ∀ t, s.slots o = some t → (s.bus.task t.idx).live = false
+
+theorem Idle.of_none {o : Owner} (h : s.slots o = none) : Idle s o := by
+  intro t ht; rw [h] at ht; cases ht
+
+theorem cur_syncSetPeriod (h : Current c s) (p : Option Nat) (hid : Idle s .sync) :
+    Current c (syncSetPeriod s p) := by
+  unfold syncSetPeriod
+  have cb : CurrentBut c { s with syncPeriod := p } (some .sync) := by
+    refine h.congr rfl rfl ?_
+    intro o ho
+    have ho' : o ≠ .sync := by simpa using ho
+    exact ⟨by simp, fun id d r p => (Wanted.syncPeriod_ne ho' _ _ _ _ _).2⟩
+  exact cb.of_dead hid
+
+theorem cur_pdoSetPeriod (h : Current c s) (n k : Nat) (p : Option Nat) (hid : Idle s (.pdo n k)) :
+    Current c (pdoSetPeriod s n k p) := by
+  unfold pdoSetPeriod
+  have cb : CurrentBut c (setPdo s n k { s.pdo n k with period := p }) (some (.pdo n k)) := by
+    refine h.congr rfl rfl ?_
+    intro o ho
+    have ho' : o ≠ .pdo n k := by simpa using ho
+    exact ⟨by simp, fun id d r p => (Wanted.setPdo_ne ho' _ _ _ _ _).2⟩
+  exact cb.of_dead hid
+
+/-- a received frame changes `data`/`period` only while the map does not transmit -/
+theorem cur_pdoReceive (h : Current c s) (n k dt : Nat) (d : Bytes) : Current c (pdoReceive s n k dt d) := by
+  unfold pdoReceive
+  simp only []
+  split
+  · exact h.congr rfl rfl (fun o ho => ⟨ho, fun id d r p => (Wanted.congr rfl rfl rfl _ _ _ _ _).2⟩)
+  · rename_i hs
+    have cb : CurrentBut c (setPdo { s with now := s.now + dt } n k
+        (received (s.pdo n k) (s.now + dt) d)) (some (.pdo n k)) := by
+      refine h.congr rfl rfl ?_
+      intro o ho
+      have ho' : o ≠ .pdo n k := by simpa using ho
+      refine ⟨by simp, fun id d r p hw => (Wanted.setPdo_ne ho' _ _ _ _ _).2 ?_⟩
+      exact (Wanted.congr rfl rfl rfl _ _ _ _ _).2 hw
+    exact cb.of_none hs
+
 theorem cur_pdoUpdate (hi : Inv c s) (h : Current c s) (n k : Nat) (d : Bytes) :
     Current c (pdoUpdate c s n k d) := by
   unfold pdoUpdate
@@ -452,18 +495,30 @@ def Op.nmtNode : Op → Option Nat
   | .setState n _ => some n
   | _ => none
 
-/-- the call is not a state change of an `NmtSlave` that raised after changing the state -/
+/-- the producer whose `period` attribute a call assigns by hand -/
+def Op.assigns : Op → Option Owner
+  | .syncSetPeriod _ => some .sync
+  | .pdoSetPeriod n k _ => some (.pdo n k)
+  | _ => none
+
+/-- the call is neither a state change of an `NmtSlave` that raised after changing the state nor an
+    assignment to the `period` attribute of a producer whose task is running -/
 def Clean (c : Cfg) (s : State) (op : Op) : Prop :=
-  ∀ n, op.nmtNode = some n →
-    (step c s op).2 = true ∨ ((step c s op).1.slave n).st = (s.slave n).st
+  (∀ n, op.nmtNode = some n →
+    (step c s op).2 = true ∨ ((step c s op).1.slave n).st = (s.slave n).st) ∧
+  (∀ o, op.assigns = some o → Idle s o)
 
 theorem cur_exec (hi : Inv c s) (h : Current c s) (op : Op)
     (hcl : ∀ n, op.nmtNode = some n →
-      (exec c s op).2 = true ∨ ((exec c s op).1.slave n).st = (s.slave n).st) :
+      (exec c s op).2 = true ∨ ((exec c s op).1.slave n).st = (s.slave n).st)
+    (hid : ∀ o, op.assigns = some o → Idle s o) :
     Current c (exec c s op).1 := by
   cases op with
   | syncStart p => exact cur_syncStart hi h p
   | syncStop => exact cur_stopKeep h .sync
+  | syncSetPeriod p => exact cur_syncSetPeriod h p (hid _ rfl)
+  | pdoSetPeriod n k p => exact cur_pdoSetPeriod h n k p (hid _ rfl)
+  | pdoReceive n k dt d => exact cur_pdoReceive h n k dt d
   | pdoStart n k p => exact cur_pdoStart hi h n k p
   | pdoStop n k => exact cur_stopClear h _
   | pdoUpdate n k d => exact cur_pdoUpdate hi h n k d
@@ -492,11 +547,12 @@ theorem cur_exec (hi : Inv c s) (h : Current c s) (op : Op)
 
 theorem cur_step (hi : Inv c s) (h : Current c s) (op : Op) (hcl : Clean c s op) :
     Current c (step c s op).1 := by
-  unfold Clean step at *
+  obtain ⟨hcl, hid⟩ := hcl
+  unfold step at *
   split
   · rename_i hw
     simp only [hw, if_true] at hcl
-    exact cur_exec hi h op hcl
+    exact cur_exec hi h op hcl hid
   · exact h
 
 /-- no state change of an `NmtSlave` in the history raised after changing the state -/
